@@ -110,6 +110,7 @@ type Store struct {
 	Real     *memory.Storage
 	Calls    []StoreCall
 	FailSave map[int]bool // k-th Save call (1-based) fails
+	FailType string       // one-shot: the next Save of a message of this type fails
 	nsave    int
 	Delay    func(op string) // optional: yields / sleeps, drawn by the scenario
 	Quiet    bool            // do not log calls
@@ -174,7 +175,11 @@ func (s *Store) Save(id fix.StorageID, msg simplefixgo.SendingMessage, n int) er
 	s.nsave++
 	k := s.nsave
 	simrt.RaceEnable()
-	if s.FailSave[k] {
+	failType := s.FailType != "" && s.FailType == msg.MsgType()
+	if failType {
+		s.FailType = ""
+	}
+	if s.FailSave[k] || failType {
 		s.w.Fault("store_save_failed")
 		s.log("save", n, errInjectedSave, msg.MsgType())
 		return errInjectedSave
